@@ -249,10 +249,12 @@ PROPS = {
     "C08": {
         "quick": [
             {"test": "TestC08Path", "checks": 60000, "shards": 4},
+            {"test": "TestC08Hetero", "checks": 20000, "shards": 2},
             {"test": "TestC08Shadowing", "kind": "plain"},
         ],
         "thorough": [
-            {"test": "TestC08Path", "checks": 3200000, "shards": 16},
+            {"test": "TestC08Path", "checks": 3200000, "shards": 12},
+            {"test": "TestC08Hetero", "checks": 800000, "shards": 4},
             {"test": "TestC08Shadowing", "kind": "plain"},
         ],
         "assumptions": [
